@@ -19,35 +19,10 @@ Conventions
 -/
 import TonVerif.Model.Builder
 import TonVerif.Model.Cell
+import TonVerif.Spec.Tlb.VmStack
 namespace TonVerif.Model.Vm
-open TonVerif TonVerif.Model
+open TonVerif TonVerif.Model TonVerif.Spec.Vm
 
-mutual
-/-- what `VmStackValue.serialize` accepts / `deserialize` returns -/
-inductive Val (R : Type) where
-  | null                                           -- None
-  | int (v : Int)                                  -- int
-  | cell (c : R)                                   -- Cell
-  | slice (bits : Bits) (refs : List R)            -- Slice: remaining bits, remaining refs
-  | builder (bits : Bits) (refs : List R)          -- Builder
-  | cont (k : Cont R)                              -- VmCont
-  | tuple (vs : List (Val R))                      -- VmTuple, last entry first
-/-- `VmCont(type_, **fields)` -/
-inductive Cont (R : Type) where
-  | std (cd : Ctl R) (codeBits : Bits) (codeRefs : List R)
-  | envelope (cd : Ctl R) (next : Cont R)
-  | quit (exitCode : Int)
-  | quitExc
-  | repeat_ (count : Int) (body after : Cont R)
-  | until_ (body after : Cont R)
-  | again (body : Cont R)
-  | whileCond (cond body after : Cont R)
-  | whileBody (cond body after : Cont R)
-  | pushint (value : Int) (next : Cont R)
-/-- `VmControlData`: nargs, stack (top first), save (dictionary root), cp -/
-inductive Ctl (R : Type) where
-  | mk (nargs : Option Int) (stack : Option (List (Val R))) (save : Option R) (cp : Option Int)
-end
 
 variable {R : Type}
 
@@ -72,6 +47,12 @@ def build (mk : Bits → List R → Option R) (op : BOp R) : Option (Built R) :=
 
 def tagInt257 : Bits := [false, false, false, false, false, false, true, false,
                          false, false, false, false, false, false, false]       -- '000000100000000' = #0201_
+
+open BOp in
+/-- `if x is not None: store_bit_int(1); store(x)  else: store_bit_int(0)` -/
+def storeMaybe (store : Int → BOp R) : Option Int → BOp R
+  | some v => storeBit true ⊳ store v
+  | none => storeBit false
 
 open BOp in
 /-- `VmCellSlice.serialize(value)` for a slice with remaining `bits`, `refs` -/
@@ -164,21 +145,16 @@ def serCont (mk : Bits → List R → Option R) : Cont R → Option (Built R)
     build mk (storeBits [true, true, true, true] ⊳ storeInt value 32 ⊳ storeRef n.cell)
 /-- `VmControlData.serialize(value)`; the `stack` case contains `VmStack.serialize(stack)` -/
 def serCtl (mk : Bits → List R → Option R) : Ctl R → Option (Built R)
-  | .mk nargs stack save cp => do
-    let opN : BOp R := match nargs with
-      | some n => storeBit true ⊳ storeUint n 13
-      | none => storeBit false
-    let opS : BOp R ← (match stack with
-      | some st => do
-        let l ← serStackList mk st
-        let sc ← build mk (storeUint st.length 24 ⊳ storeCell l.bits l.refs)      -- VmStack.serialize
-        pure (storeBit true ⊳ storeCell sc.bits sc.refs)
-      | none => pure (storeBit false))
+  | .mk nargs none save cp => do
     let sl ← build mk (storeMaybeRef save)                        -- VmSaveList.serialize
-    let opC : BOp R := match cp with
-      | some c => storeBit true ⊳ storeInt c 16
-      | none => storeBit false
-    build mk (opN ⊳ opS ⊳ storeCell sl.bits sl.refs ⊳ opC)
+    build mk (storeMaybe (fun n => storeUint n 13) nargs ⊳ storeBit false ⊳ storeCell sl.bits sl.refs
+      ⊳ storeMaybe (fun c => storeInt c 16) cp)
+  | .mk nargs (some st) save cp => do
+    let l ← serStackList mk st
+    let sc ← build mk (storeUint st.length 24 ⊳ storeCell l.bits l.refs)          -- VmStack.serialize(stack)
+    let sl ← build mk (storeMaybeRef save)                        -- VmSaveList.serialize
+    build mk (storeMaybe (fun n => storeUint n 13) nargs ⊳ storeBit true ⊳ storeCell sc.bits sc.refs
+      ⊳ storeCell sl.bits sl.refs ⊳ storeMaybe (fun c => storeInt c 16) cp)
 end
 
 open BOp in
